@@ -1,7 +1,7 @@
 """Stage-level conformance (binding C): recorded hook events -> PipelineTrace events."""
 from . import common
 
-MODELLED = set(" -~|:!+.',`_=/\\()><^vV*oOX")
+MODELLED = set(" -~|:!+.',`_=/\\()><^vV*oOX’")
 
 
 class Inexact(Exception):
